@@ -32,9 +32,11 @@ RULE = ("a case = (t1, t2, filter option, mode, threshold); t1 random nested val
         "entry of the unrestricted result and kept at least one; distinct = distinct (t1, t2, options)")
 TRUSTED = ["the `re` engine is an oracle: the harness evaluates the patterns on the rendered string of every position and hands "
            "the model the truth table",
-           "DeepHash-side exclusion of set members (deephash.py:378-396, addressed by iteration index and short-circuited by the "
-           "shared memo table) is not in the model: cases where a pattern / path hits the pseudo-path <set path>[i] are kept out of "
-           "the correspondence, counted, and judged by the direct oracle only (known finding K13c)",
+           "DeepHash-side exclusion of set members (deephash.py:378-396: _skip_this on the pseudo-path <set path>[iteration index], "
+           "consulted only for members that are not memoised yet) is modelled for exclude_paths / exclude_regex_paths with a memo table "
+           "per compared pair of sets (diffh / run_filtered_h, compared in every case); the table shared by the whole run is not threaded "
+           "through the model: hit cases where an atom is a member of two compared pairs, and members dropped by include_paths "
+           "(startswith test), are kept out of the correspondence, counted, and judged by the direct oracle only (known finding K13c)",
            "exclude_types / exclude_obj_callback / include_obj_callback branches of _skip_this are absent from the model"]
 ASSUMPTIONS = ["tree-shaped inputs (no shared mutable containers), no bytes dict keys (the path printer raises on them)",
                "no two ==-equal set members of different type, no set member str containing ':' or equal to 'NONE' (C06/C07 findings)"]
@@ -163,11 +165,19 @@ def dd_kwargs(opt):
     return kw
 
 
-def run_tree(t1, t2, opt):
-    r, unmod = D.run_deepdiff(t1, t2, view="tree", verbose_level=2, **dd_kwargs(opt))
-    if isinstance(r, Exception):
-        return ("EXC", type(r).__name__ + ": " + str(r)[:200]), unmod
-    return D.tree_obs(r), unmod
+def run_tree(t1, t2, opt, objs=None):
+    """DeepDiff on fresh copies (tree view); `objs`, when given, receives the two objects that
+    were really diffed (the iteration order of THEIR sets is what DeepHash enumerates)"""
+    from deepdiff import DeepDiff
+    a, b = copy.deepcopy(t1), copy.deepcopy(t2)
+    sa, sb = D.snapshot(a), D.snapshot(b)
+    if objs is not None:
+        objs[:] = [a, b]
+    try:
+        r = DeepDiff(a, b, view="tree", verbose_level=2, **dd_kwargs(opt))
+    except Exception as e:  # noqa
+        return ("EXC", type(e).__name__ + ": " + str(e)[:200]), (D.snapshot(a) == sa and D.snapshot(b) == sb)
+    return D.tree_obs(r), (D.snapshot(a) == sa and D.snapshot(b) == sb)
 
 
 def srepr(x):
@@ -295,6 +305,50 @@ def set_member_hit(t1, t2, opt, spec=None):
             return any(walk(x, y, path + (["x", i],)) for i, (x, y) in enumerate(zip(a, b)))
         return False
     return walk(t1, t2, ())
+
+
+def set_hits(t1, t2, opt, spec):
+    """the DeepHash side on compared sets: (table of (set path, member index) a pattern matches,
+    some exclude string / pattern hits a member of a pair the filter keeps,
+    include_paths drop a member (not modelled),
+    an atom is a member of two compared pairs that are kept (shared memo table: not modelled))"""
+    exs = set(s for a in opt.get("ex", ()) for s in rooted(a))
+    incs = [s for a in opt.get("inc", ()) for s in rooted(a)]
+    rxs = [re.compile(r) for r in opt.get("rx", ())]
+    table, flags, members = [], {"hit": False, "inc": False}, []
+
+    def walk(a, b, path, kept):
+        if type(a) is not type(b):
+            return
+        kept = kept and spec.keep(list(path))
+        if isinstance(a, (set, frozenset)):
+            base = render(list(path))
+            for i in range(max(len(a), len(b))):
+                sidx = "%s[%d]" % (base, i)
+                if any(r.search(sidx) for r in rxs):
+                    table.append((list(path), i))
+                    flags["hit"] = flags["hit"] or kept
+                if sidx in exs:
+                    flags["hit"] = flags["hit"] or kept
+                if kept and incs and sidx not in incs and not any(sidx.startswith(q) for q in incs):
+                    flags["inc"] = True
+            if kept:
+                members.append(list(a) + list(b))
+        elif isinstance(a, dict):
+            for k in a:
+                if k in b:
+                    walk(a[k], b[k], path + (["k", V.canon_atom([q for q in b if q == k][0])],), kept)
+        elif isinstance(a, (list, tuple)):
+            for i, (x, y) in enumerate(zip(a, b)):
+                walk(x, y, path + (["x", i],), kept)
+    walk(t1, t2, (), True)
+    shared = False
+    seen = []
+    for ms in members:
+        if any(any(m == q for q in seen) for m in ms):
+            shared = True
+        seen += ms
+    return table, flags["hit"], flags["inc"], shared
 
 
 def simple_str_key(e):
@@ -484,6 +538,23 @@ def rx_escape(s):
     return re.escape(s)
 
 
+def _at(t, q):
+    """the sub-value of t at the typed position q, or None"""
+    for tag, x in q:
+        if tag == "x":
+            if not isinstance(t, (list, tuple)) or not (0 <= x < len(t)):
+                return None
+            t = t[x]
+        else:
+            if not isinstance(t, dict):
+                return None
+            hit = [k for k in t if V.canon_atom(k) == x]
+            if not hit:
+                return None
+            t = t[hit[0]]
+    return t
+
+
 def gen_options(rng, t1, t2, P, n, hot=()):
     """n filter options for one pair; `hot` = positions at / above / next to an
     entry of the unrestricted result (chosen more often, so that the filter bites)"""
@@ -494,7 +565,7 @@ def gen_options(rng, t1, t2, P, n, hot=()):
     out = []
     for _ in range(n):
         kind = rng.choice(["lit1", "lit1", "lit1", "lit3", "lit3", "rx_prefix", "rx_exact", "rx_class",
-                           "inc1", "inc1", "inc2", "inc_any", "unrooted", "lit_rx", "ex_inc", "spelling"])
+                           "inc1", "inc1", "inc2", "inc_any", "unrooted", "lit_rx", "ex_inc", "spelling", "set_idx"])
         zip_ = rng.random() < 0.6
         pool = nonroot if zip_ or rng.random() < 0.25 else keypaths
         if hot and rng.random() < 0.65:
@@ -525,6 +596,19 @@ def gen_options(rng, t1, t2, P, n, hot=()):
         elif kind == "lit_rx":
             opt["ex"] = [render(rng.choice(pool))]
             opt["rx"] = ["^" + rx_escape(render(rng.choice(pool))) + "$"]
+        elif kind == "set_idx":
+            # the DeepHash side: the pseudo-path <set path>[i] of a member of a set (K13c)
+            sets = [p for p in P if isinstance(_at(t1, p), (set, frozenset)) or isinstance(_at(t2, p), (set, frozenset))]
+            if not sets:
+                opt["kind"] = "lit1"
+                opt["ex"] = [render(rng.choice(pool))]
+            else:
+                q = rng.choice(sets)
+                i = rng.randint(0, 2)
+                if rng.random() < 0.5:
+                    opt["rx"] = [rng.choice([r"\[%d\]$" % i, "^" + rx_escape(render(q)) + r"\[[0-%d]\]$" % i])]
+                else:
+                    opt["ex"] = ["%s[%d]" % (render(q), i)]
         elif kind == "spelling":
             # what add_root_to_paths / the set really contain: another spelling of an existing path never matches
             q = rng.choice(pool)
@@ -632,9 +716,10 @@ def oracle_one(t1, t2, opt, base_tree, base_text, rng, do_text=True, do_indep=Tr
     fails = []
     P = all_positions(t1, t2)
     spec = Spec(P, opt.get("ex", ()), opt.get("rx", ()), opt.get("inc", ()))
-    got, unmod = run_tree(t1, t2, opt)
+    objs = []
+    got, unmod = run_tree(t1, t2, opt, objs)
     inq = in_quantifier(opt, spec)
-    flags = {"inq": inq}
+    flags = {"inq": inq, "objs": objs}
     if not unmod:
         fails.append((case_dict(t1, t2, opt), "DeepDiff modified its inputs"))
     if isinstance(got, tuple):
@@ -677,10 +762,11 @@ def oracle_one(t1, t2, opt, base_tree, base_text, rng, do_text=True, do_indep=Tr
     return fails, nontrivial, got, flags
 
 
-def model_expr(t1, t2, opt, spec):
-    return "c13_case %s %s %s %s %s %s %s %s" % (
+def model_expr(t1, t2, opt, spec, hits=()):
+    return "c13_case_h %s %s %s %s %s %s %s %s %s" % (
         D.coq_udiff_table(D.udiff_table(t1, t2)), D.coq_ops_table(D.opcode_table(t1, t2)),
         core.coq_list(D.coq_pathc(p) for p in spec.rx_table()),
+        core.coq_list("(%s, %d)" % (D.coq_pathc(p), i) for p, i in hits),
         core.coq_list(core.coq_pystr(s) for s in opt.get("ex", ())),
         core.coq_list(core.coq_pystr(s) for s in opt.get("inc", ())),
         D.coq_cfg(opt["zip"], opt["thr"]), V.to_coq(t1), V.to_coq(t2))
@@ -731,10 +817,17 @@ def _work(args):
                 cnt("raised")
                 continue
             spec = Spec(P, opt.get("ex", ()), opt.get("rx", ()), opt.get("inc", ()))
-            if set_member_hit(t1, t2, opt, spec):
-                cnt("set_member_hit(no correspondence)")
+            a, b = flags["objs"]
+            hits, hit, inc_hit, shared = set_hits(a, b, opt, spec)
+            if inc_hit:
+                cnt("set_member_dropped_by_include(no correspondence)")
                 continue
-            cases.append((model_expr(t1, t2, opt, spec), got, case_dict(t1, t2, opt)))
+            if hit and shared:
+                cnt("set_member_hit_with_shared_memo(no correspondence)")
+                continue
+            if hit:
+                cnt("set_member_hit(in correspondence)")
+            cases.append((model_expr(a, b, opt, spec, hits), got, case_dict(t1, t2, opt)))
             if len(samples) < 2 and nontriv:
                 samples.append(case_dict(t1, t2, opt, filtered_entries=len(got), unrestricted_entries=len(bt)))
     return cases, fails, counts, seen, samples
@@ -754,6 +847,9 @@ WITNESSES = [
     ("C13_exclude_default_index_refuted", [1, 2], [2, 3],
      {"zip": False, "thr": 0, "ex": ["root[0]"], "kind": "witness"},
      {'iterable_item_added': {'root[1]': 3}}),
+    ("C13_include_default_index_refuted", [1, 2], [2, 3],
+     {"zip": False, "thr": 0, "inc": ["root[1]"], "kind": "witness"},
+     {'iterable_item_added': {'root[1]': 3}}),
     ("C13_include_substring_refuted", [{'xroot[1]': 1}, 5], [{'xroot[1]': 2}, 6],
      {"zip": True, "thr": 0, "inc": ["root[0]['xroot[1]']"], "kind": "witness"},
      {'values_changed': {"root[0]['xroot[1]']": {'new_value': 2, 'old_value': 1}, 'root[1]': {'new_value': 6, 'old_value': 5}}}),
@@ -769,7 +865,7 @@ WITNESSES = [
     ("exclude_under_include_witness (K13d)", {'a': {'b': 1, 'c': 2}}, {'a': {'b': 2, 'c': 3}},
      {"zip": True, "thr": 0, "ex": ["root['a']['b']"], "inc": ["root['a']"], "kind": "witness"},
      {'values_changed': {"root['a']['b']": {'new_value': 2, 'old_value': 1}, "root['a']['c']": {'new_value': 3, 'old_value': 2}}}),
-    ("set member pseudo-index (K13c, not in the model)", {1, 2}, {2, 3},
+    ("C13_set_member_index_refuted (K13c)", {1, 2}, {2, 3},
      {"zip": True, "thr": 0, "rx": [r"\[0\]$"], "kind": "witness"},
      {'set_item_added': ['root[3]']}),
     ("include_substring_sibling_refuted", {"xroot['a']": 1, 'a': 1, 'b': 1}, {"xroot['a']": 2, 'a': 2, 'b': 2},
@@ -790,7 +886,7 @@ def witnesses(ctx):
 
 # --------------------------------------------------------------------------
 def run(ctx):
-    npairs = 4000 if ctx.thorough else 800
+    npairs = 4000 if ctx.thorough else 500
     nopts = 10 if ctx.thorough else 8
     nw = core.NCPU
     per = (npairs + nw - 1) // nw
@@ -832,7 +928,10 @@ def replay(ctx, data):
     for c, what in fs:
         print("replay: FAILS: " + what)
         ctx.fail(c, what)
-    if not set_member_hit(t1, t2, opt) and not isinstance(got, tuple):
+    if not isinstance(got, tuple):
         P = all_positions(t1, t2)
         spec = Spec(P, opt.get("ex", ()), opt.get("rx", ()), opt.get("inc", ()))
-        ctx.coq_cases("c13_replay", HDR, [(model_expr(t1, t2, opt, spec), got, case)])
+        a, b = flags["objs"]
+        hits, hit, inc_hit, shared = set_hits(a, b, opt, spec)
+        if not inc_hit and not (hit and shared):
+            ctx.coq_cases("c13_replay", HDR, [(model_expr(a, b, opt, spec, hits), got, case)])
